@@ -7,6 +7,8 @@ from engine import *
 import interp as IN
 from intrinsics import I
 import intrinsics_lib  # noqa: F401  (registers more models)
+import intrinsics_reflect  # noqa: F401
+import intrinsics_big  # noqa: F401
 
 _loaded = [None]
 
